@@ -1,0 +1,22 @@
+//go:build verif
+
+// Contracts for the deductive verifier under /verif (comment-only file: it
+// adds no code; compiled only with -tags verif).
+package registry
+
+// C19: an index is accepted, and the high-water mark persisted, only under the
+// state lock and only after signature, rollback and staleness checks passed;
+// the persisted version is the accepted one and never below the previous mark.
+//verif:func (*TrustedVerifier).VerifyIndex(v, ctx, raw) (vi, err)
+//verif:call[load-under-lock] index.LoadState requires succeeded("acquireIndexStateLock") && count("flock.(*Flock).Unlock") == 0
+//verif:call[rollback-vs-loaded-mark] index.CheckRollback requires succeeded("index.LoadState") && succeeded("index.Verify") && arg1 == result_of("index.LoadState", 0).Version && arg0 == result_of("index.Verify", 0).Payload.Index.Version
+//verif:call[save-only-after-all-checks] index.SaveState requires succeeded("acquireIndexStateLock") && count("flock.(*Flock).Unlock") == 0 && succeeded("index.LoadState") && succeeded("index.Verify") && succeeded("index.CheckRollback") && succeeded("index.CheckStaleness")
+//verif:call[mark-never-decreases] index.SaveState requires arg1.Version == result_of("index.Verify", 0).Payload.Index.Version && arg1.Version >= result_of("index.LoadState", 0).Version
+//verif:ensures[accepted-means-saved] err == nil ==> succeeded("index.SaveState") && vi == result_of("index.Verify", 0)
+//verif:ensures[rejected-saves-nothing] !succeeded("index.Verify") || !succeeded("index.CheckRollback") || !succeeded("index.CheckStaleness") ==> !called("index.SaveState")
+
+// C19: integrity gate. nil only if the 32 digest bytes equal the decoded hex.
+//verif:func CheckCorruption(got, want) (err)
+//verif:ensures[match] err == nil ==> len(wantBytes) == 32 && forall k in [0, 32): got[k] == wantBytes[k]
+//verif:loop 0 vars j
+//verif:loop 0 invariant j < 32 && len(wantBytes) == 32 && forall k in [0, j+1): got[k] == wantBytes[k]
